@@ -322,5 +322,21 @@ PROPS["C03"] = {
              plain("dfs", "sched", "TestWakeupDFS", flavour="sched")],
 }
 
+PROPS["C17"] = {
+    "id": "C17", "level": "exploration",
+    "rule": "generated cases on real loopback TCP: node A with 1..6 sender goroutines, 1..4 target actors on node B and 0..3 on a third node C; each sender follows a generated script of 1..40 "
+            "steps (Send / SendWithSender with its own sender PID, sender 0 without; 1 step in 10 a Request that the target answers with the request's token), then a final marker per target.  "
+            "Per (sender, target) the received sequence must equal the sent one (exactly once, in order, with the sender PID), replies must carry the request's token; afterwards Start on a running "
+            "remote must fail harmlessly, Stop().Wait() twice must return, and a TCP dial to the address must be refused.  Unreachable episodes (3 in quick, 16 in thorough, in parallel): k messages "
+            "to an address nobody listens on -> RemoteUnreachableEvent for it and exactly k DeadLetterEvents naming its stream writer; then the peer is started on that address and a later send must "
+            "arrive there (an extra dead letter instead = no fresh attempt).  Non-trivial = >= 2 senders and >= 2 targets, or an unreachable episode.",
+    "technique": "property-based testing (rapid) of generated sender/target populations over real remotes; per-flow sequence oracle closed by final markers; scripted unreachable episodes with a dead-letter count oracle",
+    "level_text": "Generated-input search over real TCP; batch formation and interleavings are sampled by timing (C15 is the deterministic counterpart for the encoding).",
+    "level_note": "loss shows only through a final marker that overtook a message; nothing arriving at all is a timeout = inconclusive; connection loss in mid-stream is not generated",
+    "assumptions": ENG_ASSUME + ["free loopback ports are picked by listening on :0 and closing; a port stolen in between makes the case inconclusive"],
+    "legs": [rapid("flows", "net", "TestRemoteFlows", 60, 1200, shards=(2, 12)),
+             plain("unreach", "net", "TestUnreachable", timeout={"quick": 300, "thorough": 600})],
+}
+
 # reasons for properties that are not claimed (kept current by hand)
 NA_REASONS = {}
